@@ -317,7 +317,14 @@ pub fn fault_history_from<X: FaultExec>(ctor: &str, ops: &[X::Op], rep: &mut Rep
                 },
             };
             cb::reset_count();
-            cb::arm(j);
+            // every other injection point is "sticky": the callback keeps panicking for the rest
+            // of the operation (on the unchanged library nothing runs user code while unwinding)
+            if j % 2 == 1 {
+                cb::arm_sticky(j);
+                rep.counters.inc("injections_with_persistently_failing_callback");
+            } else {
+                cb::arm(j);
+            }
             let r = catch_unwind(AssertUnwindSafe(|| b.step_quiet(&op, &mut scratch)));
             cb::disarm();
             rep.evaluations += 1;
